@@ -88,3 +88,31 @@ async fn scheduler_contract() {
         }
     }
 }
+
+/// C16, last clause: a block that keeps failing is requested only a bounded number of times
+#[tokio::test]
+#[serial_test::serial]
+async fn retries_bounded() {
+    let t = TestManager::default();
+    let blockchain = t.blockchain_lock.read().await;
+    for batch in 1..4usize {
+        let mut state = BlockchainSyncState::new(batch);
+        let h = [7u8; 32];
+        state.received_block_picture.entry(1).or_default().push_back((3, h));
+        state.build_peer_block_picture(blockchain.deref());
+        let mut requests = 0u32;
+        for _round in 0..(20 * (MAX_RETRIES_PER_BLOCK as usize + 2)) {
+            let sel = state.get_blocks_to_fetch_per_peer();
+            for (p, v) in sel.iter() {
+                for (hash, id) in v.iter() {
+                    requests += 1;
+                    state.mark_as_failed(*id, *hash, *p);
+                }
+            }
+        }
+        if requests > MAX_RETRIES_PER_BLOCK + 1 {
+            witness(format!("batch size {}: one block whose fetch fails every time was requested {} times from the same peer in {} scheduling rounds (bound: first attempt + {} retries)",
+                batch, requests, 20 * (MAX_RETRIES_PER_BLOCK as usize + 2), MAX_RETRIES_PER_BLOCK));
+        }
+    }
+}
